@@ -21,7 +21,7 @@ func init() {
 	})
 	register(&propDef{
 		id:      "C18",
-		explain: "Structural necessary conditions of 'HostClient never exceeds MaxConns, its connection count is exact, and waiters are served': (E1) connsCount pairing on every path: AcquireConn keeps one unit exactly when it returns a freshly dialled connection; decConnsCount gives back one unit or hands it to exactly one dial goroutine for a waiter; dialConnFor gives the inherited unit back on every dial failure and keeps it with the connection otherwise; CloseConn gives back exactly one unit; (R-bound) the increment is control-dependent on connsCount < maxConns in the same critical section, where maxConns is the configured value or the default; (E8) conns, connsCount, connsWait and connsCleanerRun are only accessed under connsLock, wantConn.conn/err under wantConn.mu; (R-idle) a connection taken from the idle list is removed from it in the same critical section. (R-wait) in AcquireConn every return reached after a waiter was queued either hands out what the waiter received or has cancelled it (explicitly or through a deferred closure registered before the waiter was queued), so an abandoned waiter never receives a connection or a slot. Not decided: waiter fairness, deadline timing, interleavings.",
+		explain: "Structural necessary conditions of 'HostClient never exceeds MaxConns, its connection count is exact, and waiters are served': (E1) connsCount pairing on every path: AcquireConn keeps one unit exactly when it returns a freshly dialled connection; decConnsCount gives back one unit or hands it to exactly one dial goroutine for a waiter; dialConnFor gives the inherited unit back on every dial failure and keeps it with the connection otherwise; CloseConn gives back exactly one unit; (R-bound) the increment is control-dependent on connsCount < maxConns in the same critical section, where maxConns is the configured value or the default; (E8) conns, connsCount, connsWait and connsCleanerRun are only accessed under connsLock, wantConn.conn/err under wantConn.mu; (R-idle) a connection taken from the idle list is removed from it in the same critical section. (R-wait) in AcquireConn every return reached after a waiter was queued either hands out what the waiter received or has cancelled it (explicitly or through a deferred closure registered before the waiter was queued), so an abandoned waiter never receives a connection or a slot. (R-cancel) wantConn.cancel has no return before it took the waiter's mutex, reads the delivered connection inside that critical section, and on every path from that read to a return on which the value can be non-nil passes it to ReleaseConn/CloseConn - a delivered connection is never dropped on an unlocked look at the waiter. Not decided: waiter fairness, deadline timing, interleavings.",
 		run:     runC18,
 	})
 	register(&propDef{
@@ -537,6 +537,7 @@ func runC38(p *Prog, r *Report) {
 
 func runC18(p *Prog, r *Report) {
 	waiterCancelledOnGiveUp(p, r)
+	cancelReturnsDeliveredConn(p, r)
 	acq := p.Func("(*HostClient).AcquireConn")
 	dec := p.Func("(*HostClient).decConnsCount")
 	dialFor := p.Func("(*HostClient).dialConnFor")
@@ -1576,4 +1577,128 @@ func waiterCancelledOnGiveUp(p *Prog, r *Report) {
 		}
 	}
 	r.Floor("R-wait", "places where AcquireConn queues a waiter", n, 1)
+}
+
+// cancelReturnsDeliveredConn (C18.R-cancel): wantConn.cancel is the one place where a connection that was delivered to
+// a waiter nobody listens to any more gets back to the pool. Whether one was delivered is only known under the waiter's
+// mutex (tryDeliver stores it there): every return of cancel is preceded by the Lock, the conn field is read in that
+// critical section, and every path from that read to a return passes ReleaseConn/CloseConn of the value or the branch
+// that found it nil. An early return on an unlocked look at the waiter ("already answered") skips exactly the case the
+// routine exists for - the connection stays counted, neither idle nor in use.
+func cancelReturnsDeliveredConn(p *Prog, r *Report) {
+	fn := p.Func("(*wantConn).cancel")
+	if fn == nil {
+		r.Undecided("R-cancel", "(*wantConn).cancel", "not found")
+		return
+	}
+	isMuLock := func(i ssa.Instruction) bool {
+		c, ok := i.(ssa.CallInstruction)
+		if !ok {
+			return false
+		}
+		if _, isD := i.(*ssa.Defer); isD {
+			return false
+		}
+		key, op, _ := lockOp(c)
+		return op > 0 && key == "wantConn.mu"
+	}
+	hit, path := reachAvoiding(fn, nil, isReturn, isMuLock, nil)
+	r.Check("R-cancel", "wantConn.cancel: no return before the waiter's mutex was taken", hit == nil, p.Pos(fn.Pos()),
+		"a return is reachable without w.mu.Lock(): whether a connection was delivered is decided on an unlocked look at the waiter (or not at all), and a connection delivered to this waiter is not given back - it stays counted in connsCount, in no idle list, until MaxConns of them are lost and every request gets ErrNoFreeConns", blocksString(p, path)...)
+	// the conn read under the lock
+	n := 0
+	for _, b := range fn.Blocks {
+		for _, in := range b.Instrs {
+			u, ok := in.(*ssa.UnOp)
+			if !ok {
+				continue
+			}
+			if _, fv := loadedField(u); fv == nil || fv.Name() != "conn" {
+				continue
+			}
+			// only the read that is handed on (not the one in the 'nothing delivered yet' test)
+			isGiveBack := func(i ssa.Instruction) bool {
+				c, ok := i.(ssa.CallInstruction)
+				if !ok {
+					return false
+				}
+				f := c.Common().StaticCallee()
+				if f == nil || (f.Name() != "ReleaseConn" && f.Name() != "releaseConn" && f.Name() != "CloseConn") {
+					return false
+				}
+				for _, a := range c.Common().Args {
+					if a == ssa.Value(u) {
+						return true
+					}
+				}
+				return false
+			}
+			handed := false
+			for _, ref := range *u.Referrers() {
+				if isGiveBack(ref) {
+					handed = true
+				}
+			}
+			if !handed {
+				continue
+			}
+			n++
+			// walk forward from the read; at a nil test of the value only the non-nil edge is followed
+			var h2 ssa.Instruction
+			var p2 []*ssa.BasicBlock
+			seen := map[*ssa.BasicBlock]bool{}
+			var walk func(b *ssa.BasicBlock, from int, path []*ssa.BasicBlock)
+			walk = func(b *ssa.BasicBlock, from int, path []*ssa.BasicBlock) {
+				if h2 != nil {
+					return
+				}
+				path = append(path, b)
+				for k := from; k < len(b.Instrs); k++ {
+					i := b.Instrs[k]
+					if isGiveBack(i) {
+						return
+					}
+					if isReturn(i) {
+						h2, p2 = i, append([]*ssa.BasicBlock(nil), path...)
+						return
+					}
+				}
+				succs := b.Succs
+				if iff, ok := b.Instrs[len(b.Instrs)-1].(*ssa.If); ok {
+					if bo, ok := iff.Cond.(*ssa.BinOp); ok && (bo.X == ssa.Value(u) || bo.Y == ssa.Value(u)) {
+						switch bo.Op {
+						case token.NEQ:
+							succs = b.Succs[:1]
+						case token.EQL:
+							succs = b.Succs[1:]
+						}
+					}
+				}
+				for _, s := range succs {
+					if !seen[s] {
+						seen[s] = true
+						walk(s, 0, path)
+					}
+				}
+			}
+			for k, i := range b.Instrs {
+				if i == in {
+					walk(b, k+1, nil)
+				}
+			}
+			r.Check("R-cancel", "wantConn.cancel: the delivered connection is given back whenever there is one", h2 == nil, p.Pos(in.Pos()),
+				"from the read of w.conn a return is reachable on which the value may be non-nil and was not passed to ReleaseConn/CloseConn", blocksString(p, p2)...)
+			// and the read sits inside the critical section
+			locked := false
+			for _, bb := range fn.Blocks {
+				for _, i2 := range bb.Instrs {
+					if isMuLock(i2) && dominatesInstr(i2, in) {
+						locked = true
+					}
+				}
+			}
+			r.Check("R-cancel", "wantConn.cancel: the delivered connection is read under the waiter's mutex", locked, p.Pos(in.Pos()), "no w.mu.Lock() dominates the read of w.conn")
+		}
+	}
+	r.Floor("R-cancel", "reads of the delivered connection that cancel hands back", n, 1)
 }
